@@ -507,7 +507,17 @@ func ruleWEB8(w *World, r *Report) {
 			for _, nv := range nameVals {
 				validated := func(x ssa.Instruction) bool {
 					vc, ok := x.(*ssa.Call)
-					if !ok || calleeObj(&vc.Call) != val.Obj {
+					if !ok {
+						return false
+					}
+					if calleeObj(&vc.Call) != val.Obj {
+						// the checks of the request are a function of their own, handed the request as a record: it cannot
+						// report success without the validator having accepted the field that holds the name
+						for _, rc := range recordFieldCalls(vc, stripConv(nv)) {
+							if calleeObj(&rc.vc.Call) == val.Obj && rc.j == 0 {
+								return true
+							}
+						}
 						return false
 					}
 					return sameOrigin(vc.Call.Args[0], nv)
@@ -516,7 +526,13 @@ func ruleWEB8(w *World, r *Report) {
 				if found {
 					// names taken from the replay aggregation map were admitted by the VCREATE arm: accept when the
 					// value comes from ranging over that map and the VCREATE arm validates
-					if comesFromMapRange(nv) && len(findInstrs(fn, callsTo(val.Obj))) >= 2 {
+					nval := len(findInstrs(fn, callsTo(val.Obj)))
+					if o, _ := fn.Object().(*types.Func); o != nil && !o.Exported() { // the apply phase as a function of its own: the arms are in its caller
+						for g := range w.staticCallersOf(fn) {
+							nval += len(findInstrs(g, callsTo(val.Obj)))
+						}
+					}
+					if comesFromMapRange(nv) && nval >= 2 {
 						continue
 					}
 					okAll, wit = false, wt
